@@ -7,7 +7,7 @@ use vbase::{ensure, fail};
 
 use crate::sx::walk;
 
-pub const RULE: &str = "cases are operation histories (decoded from a choice sequence; the whole sequence shrinks) over a heap of 4 DOM slots. Slots start as parsed documents (default and raw-number mode; member names up to 45 bytes incl. names that share their first 16 and last 8 bytes), clones or takes of subtrees (sharing the parsed arena), json!/From-built values (incl. owned raw numbers from to_value(RawNumber)) or empty containers. Operations: Value::{take, clone, get, get_mut, pointer, pointer_mut (incl. the empty path), as_array_mut, as_object_mut, Index, IndexMut(str|usize), assignment}, Array::{push, pop, insert, remove, swap_remove, truncate, clear, resize, resize_with, retain, retain_mut, split_off, append, drain, extend, extend_from_within, iter_mut, slice indexing, into_iter next/next_back}, Object::{insert, remove, remove_entry, get, get_mut, get_key_value, contains_key, len, is_empty, clear, retain, append, extend, iter, iter_mut, IndexMut, entry -> key / or_insert / or_insert_with / or_insert_with_key / or_default / and_modify / Occupied get, get_mut, insert, remove, into_mut / Vacant key, insert}, moving or cloning a value from one slot into a container of another. Every operation is applied to the DOM and to a reference model (Vec / unique-key map) in lock-step; its result (returned value, Option-ness, lengths, booleans, keys, or the documented panic) must agree, and after every step a canonical dump of ALL slots must equal the model — so a mutation of one value that changes another (the document it was cloned or extracted from, earlier clones) is detected. Exhaustive: every sequence of <= 3 operations over a reduced operation/argument universe. Non-trivial = a mutation after a clone/take/extract of the same arena or of a child of a parsed container; distinct by history bytes.";
+pub const RULE: &str = "cases are operation histories (decoded from a choice sequence; the whole sequence shrinks) over a heap of 4 DOM slots. Slots start as parsed documents (default and raw-number mode; member names up to 45 bytes incl. names that share their first 16 and last 8 bytes), clones or takes of subtrees (sharing the parsed arena), json!/From-built values (incl. owned raw numbers from to_value(RawNumber)) or empty containers. Operations: Value::{take, clone, get, get_mut, pointer, pointer_mut (incl. the empty path), as_array_mut, as_object_mut, Index, IndexMut(str|usize), assignment}, Array::{push, pop, insert, remove, swap_remove, truncate, clear, resize, resize_with, retain, retain_mut, split_off, append, drain, extend, extend_from_within, iter_mut, slice indexing, into_iter next/next_back followed by for_each / fold / count / last / rev / nth / a clone of the iterator; retain with a stateful keep-mask predicate and its call log}, Object::{insert, remove, remove_entry, get, get_mut, get_key_value, contains_key, len, is_empty, clear, retain, append, extend, iter, iter_mut, IndexMut, entry -> key / or_insert / or_insert_with / or_insert_with_key / or_default / and_modify / Occupied get, get_mut, insert, remove, into_mut / Vacant key, insert}, moving or cloning a value from one slot into a container of another. Every operation is applied to the DOM and to a reference model (Vec / unique-key map) in lock-step; its result (returned value, Option-ness, lengths, booleans, keys, or the documented panic) must agree, and after every step a canonical dump of ALL slots must equal the model — so a mutation of one value that changes another (the document it was cloned or extracted from, earlier clones) is detected. Exhaustive: every sequence of <= 3 operations over a reduced operation/argument universe. Non-trivial = a mutation after a clone/take/extract of the same arena or of a child of a parsed container; distinct by history bytes.";
 pub const ASSUMPTIONS: &[&str] = &["starting documents are duplicate-free (a string-keyed map cannot express duplicates)", "documented panics (IndexMut on a wrong kind, Vec-style out-of-range) are expected outcomes and must leave all slots unchanged", "array::IntoIter::as_slice/as_mut_slice are undocumented and not modelled"];
 
 pub const DOCS: &[&str] = &[
@@ -525,9 +525,31 @@ fn step(st: &mut State, src: &mut Src) -> Result<(), Fail> {
                     });
                 }
                 24 => {
-                    name = format!("slot{s}{pd}.retain(not string)");
-                    a.retain(|x| !x.is_str());
-                    marr!().retain(|x| !matches!(x, M::Str(_)));
+                    if src.below(3) == 0 {
+                        name = format!("slot{s}{pd}.retain(not string)");
+                        a.retain(|x| !x.is_str());
+                        marr!().retain(|x| !matches!(x, M::Str(_)));
+                    } else {
+                        // a predicate with state: it must be asked exactly once per element, in order
+                        // (keep-mask by call number, as in the example of the retain docs)
+                        let mask = src.byte() | 1;
+                        name = format!("slot{s}{pd}.retain(keep-mask {mask:#010b} by call number)");
+                        let mut calls = Vec::new();
+                        let mut k = 0u32;
+                        a.retain(|x| {
+                            calls.push(dump(x));
+                            k += 1;
+                            (mask >> ((k - 1) % 8)) & 1 == 1
+                        });
+                        let mut mcalls = Vec::new();
+                        let mut k = 0u32;
+                        marr!().retain(|x| {
+                            mcalls.push(mdump(x));
+                            k += 1;
+                            (mask >> ((k - 1) % 8)) & 1 == 1
+                        });
+                        res_eq("retain-calls", calls.join(","), mcalls.join(","), &st.log)?;
+                    }
                 }
                 25 => {
                     name = format!("slot{s}{pd}.retain_mut(drop null, bool -> 0)");
@@ -633,6 +655,64 @@ fn step(st: &mut State, src: &mut Src) -> Result<(), Fail> {
                     res_eq("len", format!("{}/{}", a.len(), a.is_empty()), format!("{}/{}", v.len(), v.is_empty()), &st.log)?;
                 }
                 33 => {
+                    let variant = src.below(6);
+                    if variant >= 2 {
+                        // consume some elements from both ends, then finish through a consumer that std
+                        // implements on top of fold / try_fold / nth / size_hint, or through a clone of the
+                        // iterator: all must see exactly the remaining elements
+                        let k = src.below(9); // one argument byte: the operation encoding is fixed-width
+                        let (nf, nb) = (k / 3, k % 3);
+                        name = format!("slot{s}{pd}.clone().into_iter(): {nf} x next, {nb} x next_back, then consumer {variant}");
+                        let mut it = a.clone().into_iter();
+                        let mut dq: std::collections::VecDeque<M> = marr!().clone().into();
+                        for _ in 0..nf {
+                            res_eq("into_iter.next", odump(it.next().as_ref()), omdump(dq.pop_front().as_ref()), &st.log)?;
+                        }
+                        for _ in 0..nb {
+                            res_eq("into_iter.next_back", odump(it.next_back().as_ref()), omdump(dq.pop_back().as_ref()), &st.log)?;
+                        }
+                        let want: Vec<String> = dq.iter().map(mdump).collect();
+                        res_eq("into_iter.len", format!("{:?}", it.size_hint()), format!("{:?}", (want.len(), Some(want.len()))), &st.log)?;
+                        let got: Vec<String> = match variant {
+                            2 => {
+                                let mut v = Vec::new();
+                                it.for_each(|x| v.push(dump(&x)));
+                                v
+                            }
+                            3 => {
+                                let twin = it.clone();
+                                let first: Vec<String> = it.map(|x| dump(&x)).collect();
+                                let second: Vec<String> = twin.map(|x| dump(&x)).collect();
+                                res_eq("into_iter.clone", second.join(","), want.join(","), &st.log)?;
+                                first
+                            }
+                            4 => {
+                                let n = it.clone().count();
+                                let last = it.clone().last();
+                                res_eq("into_iter.count", n.to_string(), want.len().to_string(), &st.log)?;
+                                res_eq("into_iter.last", last.as_ref().map(dump).unwrap_or_default(), want.last().cloned().unwrap_or_default(), &st.log)?;
+                                it.rev().map(|x| dump(&x)).collect::<Vec<_>>().into_iter().rev().collect()
+                            }
+                            _ => {
+                                let folded = it.clone().fold(Vec::new(), |mut v, x| {
+                                    v.push(dump(&x));
+                                    v
+                                });
+                                res_eq("into_iter.fold", folded.join(","), want.join(","), &st.log)?;
+                                let mut v = Vec::new();
+                                if let Some(x) = it.nth(1) {
+                                    v.push(dump(&x));
+                                }
+                                let mut w: Vec<String> = want.iter().skip(1).take(1).cloned().collect();
+                                std::mem::swap(&mut v, &mut w);
+                                res_eq("into_iter.nth", w.join(","), v.join(","), &st.log)?;
+                                want.clone()
+                            }
+                        };
+                        res_eq("into_iter.consumer", got.join(","), want.join(","), &st.log)?;
+                        st.log.push(name.clone());
+                        return st.check_all(&name);
+                    }
                     name = format!("slot{s}{pd}.clone().into_iter() next/next_back");
                     let c = a.clone();
                     let mut it = c.into_iter();
